@@ -7,8 +7,11 @@ never change `defer`, and a timeout compares `idle_begin_at` with the `max_idle_
 of the poll, so every statement below is about the cfg of the state on which the final `health` is called.
 
 Vocabulary (GmQuic/Lemmas/Idle.lean): `Mono k ops` = the op times are non-decreasing and ≥ `k`;
-`Op.effTime` = the time of an effective sent / received packet; `lastEff ops` = the `effTime` of the last
-effective op of `ops` (characterised by `lastEff_snoc`, `lastEff_eq_none_iff`, `lastEff_mem`). -/
+`Op.effTime` = the time of an effective RECEIVED packet; `restart ops` = the RFC 9000 §10.1 bookkeeping of a
+history (time of the last restart of the idle period; "an effective packet was sent since the last receive"): an
+effective receive restarts, an effective send restarts only if it is the FIRST since the last received packet
+(fixed code, repo_patches/fix-C17-idle-restart-on-send.diff); `lastEff ops` = time of the last restart
+(characterised by `lastEff_snoc`, `lastEff_eq_none_iff`, `lastEff_mem`).  `stepOld`/`runOld` = the code as found. -/
 namespace GmQuic.Idle
 
 /-! ## 0. the timer's `last_effective_comm` is the last effective op of the history -/
@@ -22,13 +25,14 @@ theorem lastComm_is_lastEff (c : Cfg) (ops : List Op) : (run { cfg := c } ops).l
 unconstrained).  If `health t` reports `.timeout` then idle timeout is enabled, some effective packet was sent or
 received, and
 * every RECEIVED packet (effective or not) is older than `maxIdle`,
-* every EFFECTIVE sent / received packet is older than `defer + maxIdle`
-(non-effective sent packets do not count: the timer ignores them). -/
+* every effective RECEIVED packet, and the last restart event `lastEff ops` (an effective receive, or the first
+  effective send after the last received packet), is older than `defer + maxIdle`
+(non-effective sent packets, and effective sends that are not the first since the last receive, do not count). -/
 theorem idle_not_before_ops (c : Cfg) (ops : List Op) (t : Nat) (hm : Mono 0 ops)
     (h : (step (run { cfg := c } ops) (.health t)).2 = .timeout) :
     let tm := run { cfg := c } ops
     tm.cfg.maxIdle ≠ 0 ∧ tm.cfg.defer = c.defer ∧
-    (∃ c0, lastEff ops = some c0) ∧
+    (∃ c0, lastEff ops = some c0 ∧ c0 + tm.cfg.defer + tm.cfg.maxIdle < t) ∧
     (∀ e x, Op.rcvd e x ∈ ops → x + tm.cfg.maxIdle < t) ∧
     (∀ op ∈ ops, ∀ x, op.effTime = some x → x + tm.cfg.defer + tm.cfg.maxIdle < t) := by
   intro tm
@@ -36,7 +40,9 @@ theorem idle_not_before_ops (c : Cfg) (ops : List Op) (t : Nat) (hm : Mono 0 ops
   obtain ⟨h0, b, hb, hlt⟩ := health_timeout (tm := tm) h
   obtain ⟨_, ⟨c0, hc0, hcb⟩, hr⟩ := g.idle b hb
   refine ⟨h0, g.defer_eq, ⟨c0, ?_⟩, ?_, ?_⟩
-  · rw [← lastComm_is_lastEff c ops]; exact hc0
+  · refine ⟨by rw [← lastComm_is_lastEff c ops]; exact hc0, ?_⟩
+    have hd : tm.cfg.defer = c.defer := g.defer_eq
+    omega
   · intro e x hx
     have := hr e x hx
     omega
@@ -60,9 +66,8 @@ theorem idle_not_before (c : Cfg) (ops : List Op) (t : Nat) (hm : Mono 0 (ops ++
     (run { cfg := c } ops).cfg.maxIdle ≠ 0 ∧
     ∃ c0, lastEff ops = some c0 ∧
       c0 + (run { cfg := c } ops).cfg.defer + (run { cfg := c } ops).cfg.maxIdle < t := by
-  obtain ⟨h0, _, ⟨c0, hc0⟩, _, he⟩ := idle_not_before_ops c ops t (mono_append_left hm) h
-  obtain ⟨op, ho, hx⟩ := lastEff_mem hc0
-  exact ⟨h0, c0, hc0, he op ho c0 hx⟩
+  obtain ⟨h0, _, ⟨c0, hc0, hlt⟩, _, _⟩ := idle_not_before_ops c ops t (mono_append_left hm) h
+  exact ⟨h0, c0, hc0, hlt⟩
 
 example :
     Mono 0 ([.sent true 1, .health 4] ++ [.health 15]) ∧
@@ -125,6 +130,95 @@ example :
     tm.lastComm = some 1 ∧ tm.cfg.maxIdle ≠ 0 ∧ 1 + tm.cfg.defer < 4 ∧ 4 + tm.cfg.maxIdle < 15 ∧
     (∀ b, tm.idleBegin = some b → b ≤ 4) ∧ (health tm 4).2 = .ping ∧ (health (health tm 4).1 15).2 = .timeout := by
   decide
+
+/-! ## 4b. liveness while SENDING: a silent peer is noticed whatever the endpoint itself sends -/
+
+/-- **Full-strength clause (fixed code).**  From ANY timer state in which an effective packet has already been
+sent since the last receive (`sentSinceRcvd`; the restart it caused was at `c0`), with idle timeout enabled: over
+ANY send-only tail — any number of effective or non-effective sends and polls, nothing received — a poll at `t1`
+later than `c0 + defer`, then anything the endpoint sends, then a poll at `t2` later than `t1 + maxIdle` reports
+`.timeout`.  What the endpoint transmits (retransmissions to a dead peer) cannot postpone it. -/
+theorem idle_eventually_despite_sending (tm : Timer) (c0 t1 t2 : Nat) (a b : List Op)
+    (hf : tm.sentSinceRcvd = true) (hc : tm.lastComm = some c0) (h0 : tm.cfg.maxIdle ≠ 0)
+    (ha : ∀ op ∈ a, op.sendOrPoll = true) (hb : ∀ op ∈ b, op.sendOrPoll = true)
+    (hm : Mono (c0 + tm.cfg.defer + 1) (a ++ [.health t1] ++ b ++ [.health t2]))
+    (hi : ∀ x, tm.idleBegin = some x → x ≤ c0 + tm.cfg.defer + 1)
+    (h2 : t1 + tm.cfg.maxIdle < t2) :
+    (step (run tm (a ++ [.health t1] ++ b)) (.health t2)).2 = .timeout :=
+  despite_core true tm c0 t1 t2 a b (fun _ => hf) hc h0 (fun o ho => ⟨ha o ho, Or.inl rfl⟩)
+    (fun o ho => ⟨hb o ho, Or.inl rfl⟩) hm hi h2
+
+example :
+    let tm : Timer := { cfg := Cfg.new 10 2, lastComm := some 1, sentSinceRcvd := true }
+    (step (run tm ([.sent true 4, .sent true 5] ++ [.health 6] ++ [.sent true 8, .health 9, .sent true 14, .sent false 15]))
+      (.health 17)).2 = .timeout := by decide
+
+/-- The same clause from the initial timer, over histories: whatever happened before (`pre` arbitrary), once an
+effective packet has been sent after the last received one (`(restart pre).2`), a send-only tail with a poll
+after `lastEff pre + defer` and a poll `maxIdle` later times out. -/
+theorem idle_eventually_despite_sending_hist (c : Cfg) (pre a b : List Op) (c0 t1 t2 : Nat)
+    (hfl : (restart pre).2 = true) (hc : lastEff pre = some c0)
+    (h0 : (run { cfg := c } pre).cfg.maxIdle ≠ 0)
+    (ha : ∀ op ∈ a, op.sendOrPoll = true) (hb : ∀ op ∈ b, op.sendOrPoll = true)
+    (hm : Mono (c0 + (run { cfg := c } pre).cfg.defer + 1) (a ++ [.health t1] ++ b ++ [.health t2]))
+    (hi : ∀ x, (run { cfg := c } pre).idleBegin = some x → x ≤ c0 + (run { cfg := c } pre).cfg.defer + 1)
+    (h2 : t1 + (run { cfg := c } pre).cfg.maxIdle < t2) :
+    (step (run { cfg := c } (pre ++ (a ++ [.health t1] ++ b))) (.health t2)).2 = .timeout := by
+  have hr : run { cfg := c } (pre ++ (a ++ [.health t1] ++ b)) = run (run { cfg := c } pre) (a ++ [.health t1] ++ b) := by
+    simp [run, List.foldl_append]
+  rw [hr]
+  exact idle_eventually_despite_sending _ c0 t1 t2 a b (by rw [run_init_flag]; exact hfl)
+    (by rw [run_init_lastComm]; exact hc) h0 ha hb hm hi h2
+
+example : (restart [.rcvd true 1, .sent true 2, .sent true 9]).2 = true ∧
+    lastEff [.rcvd true 1, .sent true 2, .sent true 9] = some 2 := by decide
+
+/-- The code AS FOUND refutes the clause: every effective send restarts the timer, so an endpoint that keeps
+(re)transmitting — one packet per period — never times out although nothing is ever received. -/
+theorem idle_eventually_despite_sending_fails :
+    ¬ (∀ (tm : Timer) (c0 t1 t2 : Nat) (a b : List Op),
+        tm.lastComm = some c0 → tm.cfg.maxIdle ≠ 0 →
+        (∀ op ∈ a, op.sendOrPoll = true) → (∀ op ∈ b, op.sendOrPoll = true) →
+        Mono (c0 + tm.cfg.defer + 1) (a ++ [.health t1] ++ b ++ [.health t2]) →
+        (∀ x, tm.idleBegin = some x → x ≤ c0 + tm.cfg.defer + 1) →
+        t1 + tm.cfg.maxIdle < t2 →
+        (stepOld (runOld tm (a ++ [.health t1] ++ b)) (.health t2)).2 = .timeout) := by
+  intro h
+  have := h { cfg := { maxIdle := 3, defer := 1, hb := 100 }, lastComm := some 0 } 0 2 6 [] [.sent true 3]
+    rfl (by decide) (by simp) (by decide) (by decide) (by simp) (by decide)
+  revert this
+  decide
+
+/-- the witness continued: one (re)transmission every 2 time units, polled every unit, idle timeout 3: never
+`timeout` (40 units shown; the real-code replay in `C17i` runs it for 1 000 periods) -/
+example :
+    let tm : Timer := { cfg := { maxIdle := 3, defer := 1, hb := 100 }, lastComm := some 0 }
+    let ops := (List.range 20).flatMap fun i => [Op.sent true (2 * i + 1), Op.health (2 * i + 1), Op.health (2 * i + 2)]
+    (ops.foldl (fun (acc : Timer × Bool) o => let r := stepOld acc.1 o; (r.1, acc.2 || r.2 == .timeout)) (tm, false)).2 = false := by
+  decide
+
+/-- … and what the code as found does guarantee: the clause restricted to tails without effective sends. -/
+theorem idle_eventually_despite_sending_partial (tm : Timer) (c0 t1 t2 : Nat) (a b : List Op)
+    (hc : tm.lastComm = some c0) (h0 : tm.cfg.maxIdle ≠ 0)
+    (ha : ∀ op ∈ a, op.sendOrPoll = true ∧ op.isEff = false) (hb : ∀ op ∈ b, op.sendOrPoll = true ∧ op.isEff = false)
+    (hm : Mono (c0 + tm.cfg.defer + 1) (a ++ [.health t1] ++ b ++ [.health t2]))
+    (hi : ∀ x, tm.idleBegin = some x → x ≤ c0 + tm.cfg.defer + 1)
+    (h2 : t1 + tm.cfg.maxIdle < t2) :
+    (stepOld (runOld tm (a ++ [.health t1] ++ b)) (.health t2)).2 = .timeout := by
+  have hall : ∀ op ∈ a ++ [.health t1] ++ b, op.isEff = false := by
+    intro op ho
+    simp only [List.mem_append, List.mem_singleton] at ho
+    rcases ho with (ho | ho) | ho
+    · exact (ha op ho).2
+    · subst ho; rfl
+    · exact (hb op ho).2
+  rw [runOld_eq_run _ tm hall, stepOld_eq_step _ _ rfl]
+  exact despite_core false tm c0 t1 t2 a b (fun h => by cases h) hc h0
+    (fun o ho => ⟨(ha o ho).1, Or.inr (ha o ho).2⟩) (fun o ho => ⟨(hb o ho).1, Or.inr (hb o ho).2⟩) hm hi h2
+
+example :
+    let tm : Timer := { cfg := { maxIdle := 3, defer := 1, hb := 100 }, lastComm := some 0 }
+    (stepOld (runOld tm ([] ++ [.health 2] ++ [.sent false 3])) (.health 6)).2 = .timeout := by decide
 
 /-! ## 5. `negotiate_max_idle_timeout` = RFC 9000 §10.1 (min of the two, 0 = absent); heartbeat interval -/
 
